@@ -505,7 +505,9 @@ def factorize_2d(
 
     if sort:
         argsort = multi_index.argsort()
+        null = combined_codes == -1
         combined_codes = np.argsort(argsort)[combined_codes]
+        combined_codes[null] = -1
         multi_index = multi_index[argsort]
 
     return combined_codes, multi_index
